@@ -37,12 +37,45 @@ WORKER_SNIPPET = "from vc2_conformance.scripts.vc2_test_case_generator.worker im
 CLI_SNIPPET = "import sys; from vc2_conformance.scripts.vc2_test_case_generator.cli import main; sys.exit(main(%r))"
 
 
+_CSV_OVERRIDE = [None]
+
+
 def csv_path():
+    if _CSV_OVERRIDE[0]:
+        return _CSV_OVERRIDE[0]
     for c in CSV_CANDIDATES:
         p = os.path.join(common.REPO, c)
         if os.path.exists(p):
             return p
     raise RuntimeError("sample codec features CSV not found under %s" % common.REPO)
+
+
+def write_custom_qm_csv(root, codec, matrix="0 1 1 2"):
+    """The sample CSV with an EXPLICIT quantisation matrix in column `codec` (a transform for which a default
+    matrix also exists): generators that switch between the custom and the default matrix are then exercised,
+    and a generator that modified the shared configuration in place would change what later generators see in
+    the serial run but not in the per-process workers."""
+    import csv
+
+    _CSV_OVERRIDE[0] = None
+    with open(csv_path(), newline="") as f:
+        rows = list(csv.reader(f))
+    col = None
+    for r in rows:
+        if r and r[0] == "name":
+            col = r.index(codec)
+    done = False
+    for r in rows:
+        if r and r[0] == "quantization_matrix" and col is not None:
+            r[col] = matrix
+            done = True
+    if not done:
+        raise RuntimeError("could not set quantization_matrix of %s in the sample CSV" % codec)
+    out = os.path.join(root, "codec_features_custom_qm.csv")
+    with open(out, "w", newline="") as f:
+        csv.writer(f).writerows(rows)
+    _CSV_OVERRIDE[0] = out
+    return out
 
 
 def child_env(hashseed=0):
@@ -763,6 +796,7 @@ def run(ctx):
     rnd = random.Random(ctx.seed)
     cpu0 = os.times()
     gen_seed = 4242
+    write_custom_qm_csv(root, codec)
     os.makedirs(os.path.join(root, "gen0"))
     os.makedirs(os.path.join(root, "gen1"))
     codes0 = gen_commands(codec, os.path.join(root, "gen0"), 0)
@@ -954,7 +988,7 @@ def run(ctx):
         }
     )
     ctx.assumptions += [
-        "one sample configuration (%s of tests/sample_codec_features.csv): %d worker commands" % (codec, N),
+        "one sample configuration (%s of tests/sample_codec_features.csv, with an explicit quantisation matrix 0 1 1 2 written into a scratch copy of the CSV): %d worker commands" % (codec, N),
         "operation lists are those observed by strace when each command runs alone (cold) and again over its own output (warm); ObsStable checks that nothing a worker reads of the tree can differ under interleaving",
         "interleavings inside one write() system call and torn file contents are not modelled (a file's content is the ordered list of its writers' chunks)",
         "os.makedirs is modelled as CPython 3.12 implements it (check parent, recurse, mkdir, isdir on EEXIST)",
